@@ -1,6 +1,6 @@
 //verif:pkg .
 //verif:use servers_mcp
-//verif:bound stateful: pre-state = 0..2 live sessions built by real initialize exchanges (each handshake completed or not, each with or without an open GET stream) and 0..1 deleted session; then 1 step (thorough: also with POST answers as SSE, and 2 steps from the pre-states with at most one live session) over verb {POST, GET, DELETE, PUT} x session header {none, live A, live B, deleted, arbitrary never-issued string <= 34 chars} x body {initialize, ping, initialized notification, other notification, response object, non-JSON, object without id and method}; stateless and session-disabled configurations with GET/POST-SSE on or off; after every step the reported live set equals the model's
+//verif:bound stateful: pre-state = 0..2 live sessions built by real initialize exchanges (each handshake completed or not, each with or without an open GET stream) and 0..1 deleted session; then 1 step (thorough: also with POST answers as SSE) over verb {POST, GET, DELETE, PUT} x session header {none, live A, live B, deleted, arbitrary never-issued string <= 34 chars} x body {initialize, ping, initialized notification, other notification, response object, non-JSON, object without id and method}; stateless and session-disabled configurations with GET/POST-SSE on or off; after every step the reported live set equals the model's
 //verif:bound id generator: 16 symbolic CSPRNG bytes through the real hex encoder
 //verif:assume the one-minute sweeper / one-hour expiry is not exercised (tickers never fire); more than two live sessions and longer histories are covered only by the inductive reading of the one-step check
 package mcp
@@ -188,12 +188,10 @@ func H_C04_stateful() {
 	postSSE := false
 	twoStep := false
 	if vTier() == 1 {
-		// thorough: either one step with POST answers as SSE as well, or two steps from the pre-states with
-		// at most one live session (the second session and the deleted one can arise from the first step)
-		twoStep = vBool("twoStep")
-		if !twoStep {
-			postSSE = vBool("postSSE")
-		}
+		// thorough: the one step is also taken with POST answers delivered as SSE. (Two steps were tried: the
+		// string queries about never-issued ids make the run exceed an hour of solver time, so the second
+		// step is left to the inductive reading of the one-step check.)
+		postSSE = vBool("postSSE")
 	}
 	srv := NewServer("srv", "1.0", WithPostSSEEnabled(postSSE))
 	m := &c04Model{live: map[string]bool{}, stream: map[string]*c04Stream{}, life: map[string]int{}, deleted: map[string]bool{}}
